@@ -152,9 +152,9 @@ func expectedQuery(ms []member, key string) string {
 		switch {
 		case newNumeric.MatchString(m.text):
 			return m.text
-		case strings.EqualFold(m.text, "true"):
+		case asciiFoldEq(m.text, "true"):
 			return "true"
-		case strings.EqualFold(m.text, "false"):
+		case asciiFoldEq(m.text, "false"):
 			return "false"
 		}
 		return m.text
